@@ -13,7 +13,7 @@ import time
 
 VERIF = os.path.dirname(os.path.dirname(os.path.abspath(__file__)))
 SPEC = os.path.join(VERIF, "spec")
-WORK = os.path.join(VERIF, "work")
+WORK = os.environ.get("VERIF_WORK_DIR", os.path.join(VERIF, "work"))
 
 NOQ = '[m |-> "NOQ", a |-> "-", w |-> "-"]'
 
